@@ -16,8 +16,9 @@ import time
 from pathlib import Path
 
 VERIF = Path(__file__).resolve().parent.parent
-EVIDENCE_DIR = VERIF / "evidence"
-REPLAY_DIR = VERIF / "replays"
+# Overridable so that runs against scratch copies / mutants never clobber the committed evidence.
+EVIDENCE_DIR = Path(os.environ.get("VERIF_EVIDENCE_DIR") or (VERIF / "evidence"))
+REPLAY_DIR = Path(os.environ.get("VERIF_REPLAY_DIR") or (VERIF / "replays"))
 KNOWN_FINDINGS = VERIF / "known_findings.json"
 
 
@@ -124,8 +125,8 @@ class Run:
         return out
 
     def finish(self) -> int:
-        EVIDENCE_DIR.mkdir(exist_ok=True)
-        REPLAY_DIR.mkdir(exist_ok=True)
+        EVIDENCE_DIR.mkdir(parents=True, exist_ok=True)
+        REPLAY_DIR.mkdir(parents=True, exist_ok=True)
         known = self._known()
         open_fps = {f["fingerprint"]: f for f in known if f.get("status") == "open"}
         unlisted = []
